@@ -247,6 +247,9 @@ func (e *mexpr) interpretable() bool {
 func (e *mexpr) zed() string {
 	switch e.kind {
 	case "sstr":
+		if e.path != nil {
+			return "grep(" + q(e.term) + ", " + zedPath(e.path) + ")"
+		}
 		return q(e.term)
 	case "slit":
 		return e.lit
@@ -267,7 +270,7 @@ func (e *mexpr) zed() string {
 func (e *mexpr) coq() string {
 	switch e.kind {
 	case "sstr":
-		return "(ESearchStr " + hexb([]byte(e.term)) + ")"
+		return "(ESearchStr " + coqPath(e.path) + " " + hexb([]byte(e.term)) + ")"
 	case "slit":
 		return "(ESearchLit " + hexb([]byte(e.lit)) + " " + parseLit(e.lit).coq() + ")"
 	case "eq":
@@ -295,6 +298,10 @@ func (g *fragGen) mleaf() *mexpr {
 		if t == "" {
 			t = "foo"
 		}
+		if g.r.Chance(1, 3) {
+			// grep over a field path: still a dag.Search over a path of this
+			return &mexpr{kind: "sstr", term: t, path: Pick(g.r, mpaths)}
+		}
 		return &mexpr{kind: "sstr", term: t}
 	case 3:
 		return &mexpr{kind: "slit", lit: Pick(g.r, []string{"10.0.0.1", "10.0.0.2", "true", "1", "2", "1.5", "10.0.0.0/8", "null", "false"})}
@@ -311,7 +318,8 @@ func (g *fragGen) mleaf() *mexpr {
 		}
 		return &mexpr{kind: "in", path: Pick(g.r, mpaths), lit: lit}
 	default:
-		return &mexpr{kind: "other", other: Pick(g.r, []string{"b > 1", "len(a)==1", "a != \"foo\"", "\"foo\"==a", "has(a)", "a==b", "a==\"fo\"+\"o\""})}
+		return &mexpr{kind: "other", other: Pick(g.r, []string{"b > 1", "len(a)==1", "a != \"foo\"", "\"foo\"==a", "has(a)", "a==b", "a==\"fo\"+\"o\"",
+			"grep(\"foobar\", a+b)", "grep(\"foo\", lower(a))", "grep(\"oo\", f\"{a}{b}\")"})}
 	}
 }
 
